@@ -1115,9 +1115,12 @@ def dmt_block_valid(arr: np.ndarray, dm_delays: np.ndarray) -> np.ndarray:
             f"samples, given {nsamps}."
         )
         raise ValueError(msg)
-    res = np.empty((ndms, valid_samples), dtype=arr.dtype)
+    # Same valid window for all the DMs (no wrapping for any of the delays)
+    res = np.zeros((ndms, valid_samples), dtype=arr.dtype)
     for idm in range(ndms):
-        res[idm] = np.sum(roll_block_valid(arr, dm_delays[idm]), axis=0)
+        for ichan in range(arr.shape[0]):
+            start_col = max_pos_shift - dm_delays[idm, ichan]
+            res[idm] += arr[ichan, start_col : start_col + valid_samples]
     return res
 
 
